@@ -243,7 +243,9 @@ impl RaAdvService {
                     _ => None,
                 })
                 .collect(),
-        ) {
+        )
+        .filter(|v| !v.is_empty() /* RFC 8106 5.1: at least one address */)
+        {
             options.add_option(icmppkt::NDOptionValue::RecursiveDnsServers((
                 intf.rdnss_lifetime
                     .always_unwrap_or(3 * DEFAULT_MAX_RTR_ADV_INTERVAL),
@@ -260,7 +262,11 @@ impl RaAdvService {
             )))
         }
 
-        if let Some(v) = &intf.dnssl.unwrap_or(config.dns_search.clone()) {
+        if let Some(v) = &intf
+            .dnssl
+            .unwrap_or(config.dns_search.clone())
+            .filter(|v| !v.is_empty() /* RFC 8106 5.2: at least one domain */)
+        {
             options.add_option(icmppkt::NDOptionValue::DnsSearchList((
                 intf.dnssl_lifetime
                     .always_unwrap_or(3 * DEFAULT_MAX_RTR_ADV_INTERVAL),
